@@ -368,12 +368,16 @@ def check_c06(ctx):
     # seeded scripts with late release (the simulator tends to release early)
     import random
     rnd = random.Random(ctx.seed * 31 + 6)
-    for _ in range(30 if q else 300):
+    for _ in range(90 if q else 400):
         fn, sn = rnd.randint(1, 3), rnd.randint(1, 3)
         ops = []
         for _ in range(rnd.randint(10, 40)):
             x = rnd.random()
-            if x < 0.45:
+            if x < 0.12:
+                # a burst: all request threads report failures at once (overlapping UpdateStatus calls)
+                for k in range(rnd.randint(3, 9)):
+                    ops.append({"op": "fail", "t": k % 3 + 1})
+            elif x < 0.45:
                 ops.append({"op": "fail", "t": rnd.randint(1, 3)})
             elif x < 0.6:
                 ops.append({"op": "succ", "t": rnd.randint(1, 3)})
